@@ -1227,7 +1227,9 @@ class Symex:
                     a = [f.bound] + a
                 frame = self.bind(fn, a, kw)
             self.frames, self.module = list(f.frames) + [frame], f.module
-            is_gen = any(isinstance(x, (ast.Yield, ast.YieldFrom)) for x in _walk_noscope(fn))
+            is_gen = getattr(fn, "_sx_is_gen", None)
+            if is_gen is None:      # cached per function node (the walk dominated the run time of table evaluations)
+                is_gen = fn._sx_is_gen = any(isinstance(x, (ast.Yield, ast.YieldFrom)) for x in _walk_noscope(fn))
             try:
                 self.block(fn.body)
                 r = None
